@@ -154,6 +154,14 @@ def main(argv=None):
         except (NotFound, Unsupported) as e:
             undecided.append(f"unit {uname}: {type(e).__name__}: {e}")
             continue
+        except (AttributeError, KeyError, IndexError, TypeError, AssertionError) as e:
+            tb = traceback.extract_tb(e.__traceback__)
+            if tb and "/pyvc/units/" in tb[-1].filename:
+                # the unit's own pattern matching met an AST shape it does not know: the changed code is outside what it can interpret
+                undecided.append(f"unit {uname}: cannot interpret the current source ({type(e).__name__}: {e} at {os.path.basename(tb[-1].filename)}:{tb[-1].lineno})")
+            else:
+                defects.append(f"unit {uname} crashed:\n{traceback.format_exc()[-1500:]}")
+            continue
         except Exception:
             defects.append(f"unit {uname} crashed:\n{traceback.format_exc()[-1500:]}")
             continue
